@@ -42,6 +42,9 @@ class AbsBuf:
         self.val = self.c  # current value
         self.events = []  # ("store", own|foreign) / ("reverse",) / ("resize", what) / ("load-foreign",)
         self.other = {}
+        self.probe = None  # while a loop body is probed for the indices it touches: the list of index forms
+        self.cursor_mode = False  # inside the one iteration of a cursor loop that meets the generic element
+        self.in_element_loop = 0  # inside the generic iteration of a per-element loop (its own index is the element's)
 
     # ---- protocol used by numeval
     def length(self):
@@ -55,20 +58,41 @@ class AbsBuf:
 
     def _is_generic(self, k):
         r = B.prove_eq0(Aff.of(k) - self.idx)
+        if r is None and not self.in_element_loop and not B.cur().closed:
+            # straight-line code at some other fixed index: either that is where the generic element sits, or not
+            r = B.decide_eq0(Aff.of(k) - self.idx, "%s[%r] is the generic element" % (self.name, k))
         return r is True
 
+    def _depends_on_generic(self, v):
+        """Does the value derive from the generic element's original value?"""
+        if not isinstance(v, Aff):
+            return False
+        csym = list(self.c.t)[0]
+        return csym in B._support(B.norm(v))
+
     def load_index(self, fr, k, node):
+        if self.probe is not None:
+            self.probe.append(Aff.of(k))
+            return B.fresh("probe", 0, 255)
         if self._is_generic(k):
             return self.val
-        self.events.append(("load-foreign", getattr(node, "lineno", 0)))
+        self.events.append(("load-foreign" if self.in_element_loop and not self.cursor_mode else "load-foreign-fixed", getattr(node, "lineno", 0)))
         return B.uninterp("%s[]" % self.name, [Aff.of(k)], 0, 255)
 
     def store_index(self, fr, k, v, node):
+        if self.probe is not None:
+            self.probe.append(Aff.of(k))
+            return
         if self._is_generic(k):
             self.val = v
             self.events.append(("store", "own", getattr(node, "lineno", 0)))
+        elif self.cursor_mode and self._depends_on_generic(v):
+            # the generic element itself is written to another slot (a swap / a move): it lives there from now on
+            self.idx = Aff.of(k)
+            self.val = v
+            self.events.append(("store", "moved", getattr(node, "lineno", 0)))
         else:
-            self.events.append(("store", "foreign", getattr(node, "lineno", 0)))
+            self.events.append(("store", "foreign" if self.in_element_loop and not self.cursor_mode else "foreign-fixed", getattr(node, "lineno", 0)))
 
     def load_slice(self, fr, lo, hi, node):
         raise AnalysisError("engine B: slice of an abstract buffer at line %d" % getattr(node, "lineno", 0))
@@ -236,6 +260,167 @@ def find_loop(fr, st, ivar):
     fr.env[ivar] = after
 
 
+def cursor_loop(fr, st):
+    """while TEST(cursors): BODY; cursor += const ...   over an abstract buffer.
+
+    Every iteration touches the buffer at indices that are affine in the iteration number k (found by running the
+    body speculatively at a symbolic k, helper calls included, under every outcome of its content tests).  The
+    generic element sits at index p: the iterations that touch p are the integer solutions k in [lo, T) of A(k) = p
+    over the touched index forms A.  With none, the loop leaves the element alone; with one, the statements of the
+    body that can meet the element are executed for that iteration (a value derived from the element that is stored
+    to another slot moves the element there, and the later iterations are solved again for its new place); with two
+    different ones the loop is refused."""
+    from .numeval import PyRaise
+    bufs = [b for b in getattr(fr.ev, "abs_bufs", []) if isinstance(b, AbsBuf)]
+    if len(bufs) != 1 or st.orelse:
+        return False
+    buf = bufs[0]
+    counters, rest = {}, []
+    for b in st.body:
+        if isinstance(b, ast.AugAssign) and isinstance(b.target, ast.Name) and isinstance(b.op, (ast.Add, ast.Sub)) \
+                and isinstance(fr.env.get(b.target.id), (int, Aff)) and not isinstance(fr.env.get(b.target.id), bool):
+            d = fr.expr(b.value)
+            c = B.const_of(Aff.of(d)) if isinstance(d, (int, Aff)) else None
+            if c is None:
+                return False
+            counters[b.target.id] = counters.get(b.target.id, 0) + (int(c) if isinstance(b.op, ast.Add) else -int(c))
+        else:
+            if counters:
+                return False  # statements after a cursor update would see the next iteration's cursor
+            rest.append(b)
+    if not counters or not rest:
+        return False
+    assigned = set(_assigned_names(rest))
+    if assigned & set(counters):
+        return False
+    t = st.test
+    if not (isinstance(t, ast.Compare) and len(t.ops) == 1 and isinstance(t.ops[0], (ast.Lt, ast.LtE, ast.Gt, ast.GtE))):
+        return False
+    entry = dict(fr.env)
+    for n in assigned:
+        if n in entry and any(isinstance(x, ast.Name) and x.id == n and isinstance(x.ctx, ast.Load) for b in rest for x in ast.walk(b)):
+            # might be read before it is written in an iteration: carried state other than the cursors
+            first = min((x.lineno, x.col_offset, isinstance(x.ctx, ast.Store)) for b in rest for x in ast.walk(b) if isinstance(x, ast.Name) and x.id == n)
+            if not first[2]:
+                return False
+
+    def margin(env):
+        fr.env = env
+        a, b2 = Aff.of(fr.expr(t.left)), Aff.of(fr.expr(t.comparators[0]))
+        return {ast.Lt: b2 - a - 1, ast.LtE: b2 - a, ast.Gt: a - b2 - 1, ast.GtE: a - b2}[type(t.ops[0])]
+    try:
+        g0 = margin(dict(entry))
+        g1 = margin({n: (Aff.of(entry[n]) + counters[n] if n in counters else v) for n, v in entry.items()})
+    except (TypeError, AnalysisError):
+        fr.env = dict(entry)
+        return False
+    fr.env = dict(entry)
+    gamma = B.const_of(g1 - g0)
+    if gamma is None or gamma >= 0:
+        return False
+    if not B.decide_ge0(g0, "cursor loop@%d entered" % st.lineno):
+        return True  # the loop does not run
+    T = B.divmod_const(g0, int(-gamma))[0] + 1
+
+    def at(k):
+        return {n: (Aff.of(entry[n]) + Aff.of(k).scale(counters[n]) if n in counters else v) for n, v in entry.items()}
+    # the body as independent groups of statements (one group when temporaries flow between statements)
+    groups = [[b] for b in rest] if not assigned else [rest]
+    kk = B.fresh("k?", 0, None)
+    ksym = list(kk.t)[0]
+    group_forms = []
+    for g in groups:
+        def probe(g=g):
+            buf.probe = []
+            fr.env = at(kk)
+            try:
+                fr.block(g)
+                return ("ok", buf.probe)
+            except (_Break, _Continue):
+                return ("jump", buf.probe)
+            except PyRaise:
+                return ("raise", buf.probe)
+            finally:
+                buf.probe = None
+                fr.env = dict(entry)
+        runs, mark = B.speculate(probe)
+        if any(r[0] != "ok" for r in runs):
+            return False  # leaves the loop early, or may raise, depending on contents: not summarised
+        forms = []
+        for _, fs in runs:
+            for a in fs:
+                if any(s2 is not ksym and s2.id >= mark for s2 in B._support(a)):
+                    raise AnalysisError("engine B: cursor loop at line %d indexes the buffer by something computed from its contents" % st.lineno)
+                na = B.norm(a)
+                if not any(B.is_zero(na - x) for x in forms):
+                    forms.append(na)
+        group_forms.append(forms)
+
+    def solve(lo):
+        """Iterations k in [lo, T) in which some index form equals the element's index."""
+        sols = []
+        for gi, forms in enumerate(group_forms):
+            for a in forms:
+                a1 = a.t.get(ksym, 0)
+                if a1 == 0:
+                    # an index that does not move with the iteration: touched every time round
+                    if B.decide_eq0(a - buf.idx, "fixed index of loop@%d is the generic element" % st.lineno):
+                        raise AnalysisError("engine B: cursor loop at line %d touches one fixed index in every iteration" % st.lineno)
+                    continue
+                if a1 != int(a1):
+                    raise AnalysisError("engine B: cursor loop index with a fractional stride")
+                a1 = int(a1)
+                a0 = a - Aff.of(kk).scale(a1)
+                num = (Aff.of(buf.idx) - a0) if a1 > 0 else (a0 - Aff.of(buf.idx))
+                q, r = B.divmod_const(num, abs(a1)) if abs(a1) > 1 else (num, Aff(0))
+                if abs(a1) > 1 and not B.decide_eq0(r, "loop@%d: index form reaches the generic element" % st.lineno):
+                    continue
+                if not (B.decide_ge0(q - lo, "loop@%d: that iteration exists (k >= first)" % st.lineno)
+                        and B.decide_ge0(T - 1 - q, "loop@%d: that iteration exists (k < trip count)" % st.lineno)):
+                    continue
+                hit = [x for x in sols if B.is_zero(q - x[0])]
+                if hit:
+                    hit[0][1].add(gi)
+                else:
+                    sols.append((q, {gi}))
+        return sols
+    lo = Aff(0)
+    for _round in range(4):
+        sols = solve(lo)
+        if len(sols) > 1:
+            raise AnalysisError("engine B: cursor loop at line %d touches the generic element in more than one iteration" % st.lineno)
+        if not sols:
+            break
+        k1, gis = sols[0]
+        before = buf.idx
+        fr.env = at(k1)
+        buf.cursor_mode = True
+        try:
+            for gi, g in enumerate(groups):
+                if gi in gis:
+                    fr.block(g)
+        except (_Break, _Continue):
+            raise AnalysisError("engine B: break/continue in a cursor loop at line %d" % st.lineno)
+        finally:
+            buf.cursor_mode = False
+        if B.is_zero(Aff.of(buf.idx) - before):
+            break
+        for gi, forms in enumerate(group_forms):
+            if gi not in gis and gi > min(gis):
+                for a in forms:
+                    here = a - Aff.of(kk).scale(a.t.get(ksym, 0)) + Aff.of(k1).scale(a.t.get(ksym, 0))
+                    if B.prove_eq0(here - buf.idx) is not False:
+                        raise AnalysisError("engine B: cursor loop at line %d may touch the moved element again in the same iteration" % st.lineno)
+        lo = k1 + 1  # the element moved: a later iteration may meet it again in its new place
+    else:
+        raise AnalysisError("engine B: cursor loop at line %d keeps moving the generic element" % st.lineno)
+    final = at(T)
+    for n in assigned:
+        final.pop(n, None)  # per-iteration temporaries: their last values are not tracked
+    fr.env = final
+    return True
+
+
 class SymRange:
     """range(lo, hi) with a symbolic bound, iterated over an abstract buffer."""
 
@@ -252,7 +437,14 @@ class SymRange:
             raise AnalysisError("engine B: loop target")
         # the iteration space must be exactly the buffer's index space
         if B.prove_eq0(Aff.of(self.lo)) is not True or B.prove_eq0(Aff.of(self.hi) - buf.L) is not True:
-            raise ReachedLoop("engine B: loop bounds are not range(len(buffer)) at line %d" % st.lineno)
+            # part of the index space: the loop meets the generic element exactly when its index lies in [lo, hi)
+            if B.prove_ge0(Aff.of(self.lo)) is not True or B.prove_ge0(Aff.of(buf.L) - self.hi) is not True \
+                    or any(n in fr.env for n in _assigned_names(st.body)):
+                raise ReachedLoop("engine B: loop bounds are not range(len(buffer)) at line %d" % st.lineno)
+            if not (B.decide_ge0(Aff.of(buf.idx) - self.lo, "loop@%d starts at or before the generic element" % st.lineno)
+                    and B.decide_ge0(Aff.of(self.hi) - 1 - buf.idx, "loop@%d ends after the generic element" % st.lineno)):
+                B.cur().events.append(("loop-skips-element", "loop@%d" % st.lineno))
+                return
         per_element_loop(fr, st, buf, {st.target.id: lambda: buf.idx})
 
 
@@ -299,12 +491,15 @@ def per_element_loop(fr, st, buf, binds):
                 raise AnalysisError("engine B: non-boolean loop-carried variable %s at line %d" % (n, st.lineno))
         for name, get in binds.items():
             fr.env[name] = get()
+        buf.in_element_loop += 1
         try:
             fr.block(st.body)
         except _Continue:
             pass  # ends this iteration only: the generic iteration is complete
         except _Break:
             raise AnalysisError("engine B: break in a per-element loop at line %d" % st.lineno)
+        finally:
+            buf.in_element_loop -= 1
         B.cur().events.append(("loop", loop_id, {n: (pre[n], fr.env.get(n)) for n in carried}))
         # after the loop the carried variables hold their final-iteration values: unknown
         for n in carried:
